@@ -324,7 +324,7 @@ func c11GenHelper(r *Rand, h c11Helper) []c11Arg {
 func c11Gen(r *Rand, tier string) []string {
 	per := 28
 	if tier == "thorough" {
-		per = 900
+		per = 3000
 	}
 	var out []string
 	for _, h := range c11Helpers {
